@@ -726,6 +726,53 @@ def purity(ctx, chk, only=None, strict=None):
     return n
 
 
+def pointwise_shape_rule(ctx, chk, rule="R10.2"):
+    # pointwise_cm: shape scores.shape + threshold.shape + (2, 2) through the flatten / restore pair
+    pw = ctx.fn("score_analysis.scores.pointwise_cm")
+    L_, S_, T_ = param("labels"), param("scores"), param("threshold")
+    outs = ctx.explore(lambda: ctx.ev.call(pw, [L_, S_, T_], {}), chk)
+    rets = returns(outs)
+    if len(rets) != 1:
+        chk.unknown(rule, "pointwise_cm: %d return paths" % len(rets))
+    else:
+        v = rets[0].value
+        targets_ = []
+        while isinstance(v, App) and v.fn == "reshape":
+            targets_.append(v.args[1])
+            v = v.args[0]
+        want_final = Tup([Star(App("shape", (S_,))), Star(App("shape", (T_,))), Const(2), Const(2)])
+        buf = libmodel.shape_of(v)
+        flatS = App("reshape", (S_, Const(-1)))
+        flatT = App("reshape", (T_, Const(-1)))
+        want_buf = Tup([App("size", (App("getitem", (flatS, Tup([App("slice", (Const(None), Const(None), Const(None))), Const(None)]))),)),
+                        App("size", (App("getitem", (flatT, Tup([Const(None), App("slice", (Const(None), Const(None), Const(None)))]))),)), Const(2), Const(2)])
+        ok = bool(targets_) and targets_[0] == want_final and buf is not None and len(buf.items) == 4 and buf.items[2:] == (Const(2), Const(2))
+        mids_ok = all(isinstance(t_, Tup) and t_.items[-2:] == (Const(2), Const(2)) for t_ in targets_)
+        # the row-major restore to S.shape + T.shape needs the SCORES axis first in the flat buffer
+        if ok:
+            a0, a1 = set(atoms_of(buf.items[0])), set(atoms_of(buf.items[1]))
+            if not (S_ in a0 and T_ not in a0 and T_ in a1 and S_ not in a1):
+                chk.violation(rule, "score_analysis.scores.pointwise_cm", "buffer-axis-order", "flat buffer of shape %s restored to %s" % (show(buf, 160), show(targets_[0], 120)),
+                              "a (scores, thresholds, 2, 2) buffer: reshaping a thresholds-first buffer to scores.shape + threshold.shape scrambles samples and thresholds",
+                              ctx.where("score_analysis.scores.pointwise_cm"))
+                ok = False
+                targets_ = []
+        reord = [a for a in atoms_of(rets[0].value) if isinstance(a, App) and a.fn.startswith("reorder:")]
+        if reord:
+            chk.violation(rule, "score_analysis.scores.pointwise_cm", "element-order", show(reord[0], 120),
+                          "inputs flattened in logical (row-major) order, so that entry [i..., j...] belongs to scores[i...] and threshold[j...] for any memory layout",
+                          ctx.where("score_analysis.scores.pointwise_cm"))
+        elif ok and mids_ok:
+            chk.hold(rule, "pointwise_cm:shape", "result reshaped to scores.shape + threshold.shape + (2, 2) from a (S, T, 2, 2) buffer (row-major, scores first)")
+        elif targets_ and isinstance(targets_[0], Tup):
+            chk.violation(rule, "score_analysis.scores.pointwise_cm", "shape", "final reshape target %s from buffer %s" % (show(targets_[0], 160), show(buf, 120) if buf is not None else "?"),
+                          show(want_final, 160), ctx.where("score_analysis.scores.pointwise_cm"))
+        elif buf is not None and len(buf.items) == 4 and not targets_:
+            pass    # reported above
+        else:
+            chk.unknown(rule, "pointwise_cm: shape restoration not recognised: %s" % show(rets[0].value, 160))
+
+
 def shapes_and_aliases(ctx, chk):
     # ---------------- R10.2 shapes / elementwise
     for sc, ec in GAMMAS:
@@ -771,39 +818,7 @@ def shapes_and_aliases(ctx, chk):
                               "t.shape + (2, 2) for every threshold shape (empty thresholds of rank >= 2 included)", ctx.where(SCORES + ".cm"))
             else:
                 chk.unknown("R10.2", "%s: matrix layout not understood (shape %s, operator %s)" % (inst, show(sh, 60) if sh is not None else "?", bad))
-    # pointwise_cm: shape scores.shape + threshold.shape + (2, 2) through the flatten / restore pair
-    pw = ctx.fn("score_analysis.scores.pointwise_cm")
-    L_, S_, T_ = param("labels"), param("scores"), param("threshold")
-    outs = ctx.explore(lambda: ctx.ev.call(pw, [L_, S_, T_], {}), chk)
-    rets = returns(outs)
-    if len(rets) != 1:
-        chk.unknown("R10.2", "pointwise_cm: %d return paths" % len(rets))
-    else:
-        v = rets[0].value
-        targets_ = []
-        while isinstance(v, App) and v.fn == "reshape":
-            targets_.append(v.args[1])
-            v = v.args[0]
-        want_final = Tup([Star(App("shape", (S_,))), Star(App("shape", (T_,))), Const(2), Const(2)])
-        buf = libmodel.shape_of(v)
-        flatS = App("reshape", (S_, Const(-1)))
-        flatT = App("reshape", (T_, Const(-1)))
-        want_buf = Tup([App("size", (App("getitem", (flatS, Tup([App("slice", (Const(None), Const(None), Const(None))), Const(None)]))),)),
-                        App("size", (App("getitem", (flatT, Tup([Const(None), App("slice", (Const(None), Const(None), Const(None)))]))),)), Const(2), Const(2)])
-        ok = bool(targets_) and targets_[0] == want_final and buf is not None and len(buf.items) == 4 and buf.items[2:] == (Const(2), Const(2))
-        mids_ok = all(isinstance(t_, Tup) and t_.items[-2:] == (Const(2), Const(2)) for t_ in targets_)
-        reord = [a for a in atoms_of(rets[0].value) if isinstance(a, App) and a.fn.startswith("reorder:")]
-        if reord:
-            chk.violation("R10.2", "score_analysis.scores.pointwise_cm", "element-order", show(reord[0], 120),
-                          "inputs flattened in logical (row-major) order, so that entry [i..., j...] belongs to scores[i...] and threshold[j...] for any memory layout",
-                          ctx.where("score_analysis.scores.pointwise_cm"))
-        elif ok and mids_ok:
-            chk.hold("R10.2", "pointwise_cm:shape", "result reshaped to scores.shape + threshold.shape + (2, 2) from a (S, T, 2, 2) buffer (row-major, scores first)")
-        elif targets_ and isinstance(targets_[0], Tup):
-            chk.violation("R10.2", "score_analysis.scores.pointwise_cm", "shape", "final reshape target %s from buffer %s" % (show(targets_[0], 160), show(buf, 120) if buf is not None else "?"),
-                          show(want_final, 160), ctx.where("score_analysis.scores.pointwise_cm"))
-        else:
-            chk.unknown("R10.2", "pointwise_cm: shape restoration not recognised: %s" % show(rets[0].value, 160))
+    pointwise_shape_rule(ctx, chk, "R10.2")
     for metric in METRICS:
         outs = explore_rate(ctx, chk, metric, "pos", "pos")
         rets = returns(outs)
